@@ -181,6 +181,17 @@ def run(tier):
         suite.identity('eval.normal_form.loop[PRO(1)]', entries(mat(Fp(circle.normal_form()))), entries(mat(Fp(circle))),
                        extra=tuple(sympy.Symbol('a%d' % k, real=True) for k in range(4)), functions=fq + ['rewriting.snake_removal'],
                        what='a closed loop on a PRO wire: evaluation is invariant under normalisation')
+    # daggered boxes are interpreted by the conjugate transpose also in a diagram that is the OUTPUT of lambdify / subs
+    with suite.guard('daggered boxes after lambdify / subs', fq + ['cat.Box.lambdify', 'cat.Box.subs']):
+        px = sympy.Symbol('px', real=True)
+        fb_ = tensor.Box('f', Dim(2), Dim(3), [px, 2, 3 * I, 4, px ** 2, 1 - 2 * I * px])
+        vb_, wb_ = tensor.Box('v', Dim(1), Dim(3), [1, 2, I]), tensor.Box('w', Dim(1), Dim(2), [3, 1 + I])
+        dg_ = vb_ @ wb_ >> fb_.dagger() @ tensor.Id(Dim(2))
+        for nm, conc in (('lambdify', dg_.lambdify(px)(sympy.Rational(1, 2))), ('subs', dg_.subs(px, sympy.Rational(1, 2)))):
+            T_ = lambda b: tensor.Tensor(b.dom, b.cod, b.array)
+            ref_ = T_(vb_) @ T_(wb_) >> tensor.Tensor(Dim(2), Dim(3), [sympy.sympify(e).subs(px, sympy.Rational(1, 2)) for e in fb_.array.flatten()]).dagger() @ tensor.Tensor.id(Dim(2))
+            suite.identity('eval.dagger.after_%s' % nm, entries(mat(conc.eval())), entries(mat(ref_)), functions=fq + ['cat.Box.' + nm],
+                           what='a daggered symbolic box stays a dagger through %s: the diagram evaluates to the composite of the box tensors' % nm)
     # objects sent to Dims with 0 or 2 factors: the swap special case must move blocks of axes of different lengths
     global DIMS
     saved = DIMS
